@@ -13,7 +13,8 @@ RULE = ("edit histories on the real RuleImputeManager (icontract class invariant
         "method + comparison with a sequential reference model after every operation): exhaustive histories up "
         "to length 4 (quick) / 5 (thorough) over an alphabet of valid (incl. charged, heavy-element, isotope), "
         "invalid, duplicate-by-formula, duplicate-by-SMILES adds, removes of present/absent formulas and bulk adds, "
-        "from the empty database; random length-30 histories from empty and from both shipped databases; distinct "
+        "from the empty database; every element Z = 1..118 in seven forms added to / removed from / re-added to the "
+        "empty and a shipped database; random length-30 histories from empty and from both shipped databases; distinct "
         "non-trivial = distinct histories with >= 1 accepted and >= 1 rejected operation")
 ASSUMPTIONS = ["'share a SMILES' is string identity, as the property states it",
                "records that already share a formula/SMILES in the initial state of a shipped file are reported once "
@@ -239,6 +240,7 @@ def plan(tier, seed):
     shards = [{"exh": {"first": i, "depth": depth}} for i in range(len(OPS))]
     shards += [{"rand": {"n": 70 if q else 1700, "salt": i, "init": init}}
                for i, init in enumerate(["empty", "manager", "automated"])]
+    shards.append({"periodic": True})
     return shards
 
 
@@ -272,6 +274,33 @@ def work(shard, res, tier, seed):
     if "exh" in shard:
         first, depth = shard["exh"]["first"], shard["exh"]["depth"]
         dfs(first, depth, res)
+    if "periodic" in shard:
+        # every element of the periodic table as atom / cation / anion / hydride / small compound, added to the
+        # empty and to a shipped database, half of them removed and re-added under another formula
+        from rdkit import Chem
+        pt = Chem.GetPeriodicTable()
+        rng = common.rng(seed, "C19p")
+        for name in ("empty", "manager"):
+            init = load(name)
+            STATE["exempt"].clear()
+            initial_duplicates(init, name, res) if name != "empty" else None
+            have = {r["smiles"] for r in init}
+            ops = []
+            for z in range(1, 119):
+                sym = pt.GetElementSymbol(z)
+                forms = ["[%s]" % sym, "[%s+2]" % sym, "[%s-]" % sym, "[%sH2]" % sym, "Cl[%s]Cl" % sym,
+                         "[%d%s+]" % (2 * z + 1, sym), "C[%s](C)(C)C" % sym]
+                for k, f in enumerate(forms):
+                    if oracle.parse(f) is not None and f not in have:
+                        ops.append(("add", "Z%d_%d" % (z, k), f))
+                        res.add("elements_added", sym)
+            rng.shuffle(ops)
+            rm = [("rm", o[1]) for o in ops[::2]]
+            re_add = [("add", o[1] + "_again", o[2]) for o in ops[::2]]
+            run_history(ops[: len(ops) // 2] + [("bulk", [(o[1], o[2]) for o in ops[len(ops) // 2:]])] + rm + re_add,
+                        init, res, name)
+            res.count("periodic_histories")
+            res.count("periodic_entries_added", len(ops))
     if "rand" in shard:
         sp = shard["rand"]
         rng = common.rng(seed, "C19", sp["salt"])
@@ -301,7 +330,8 @@ def conclude_args(res, tier, seed):
     depth = 5 if tier == "quick" else 6
     total = len(OPS) ** depth
     ex = res.counters.get("exhaustive_histories", 0) == total
-    return {"need": {"invariant_evaluations": 1000, "histories": 1000, "random_histories:manager": 10},
+    return {"need": {"invariant_evaluations": 1000, "histories": 1000, "random_histories:manager": 10,
+                     "periodic_entries_added": 600},
             "min_cases": 100,
             "extra": {"exhaustive_subspace": "all %d^%d = %d histories over the %d-operation alphabet from the empty "
                       "database enumerated completely: %s" % (len(OPS), depth, total, len(OPS), ex)}}
